@@ -451,3 +451,44 @@ func FeeQuoteEditModel(q *FeeQuote, e FeeQuoteEdit) {
 		*rate, *orate = e.Unit, e.Unit2
 	}
 }
+
+// ---------------------------------------------------------------------------
+// Fee units written with huge numbers (round 7 for C11, round 8 for C10 and C12).
+
+// FeeUnitWideOK is the domain of a mining rate: positive byte denominator, non-negative
+// satoshi amount, over the whole range of the (Go int) fields.
+func FeeUnitWideOK(u FeeUnit) bool { return u.Bytes >= 1 && u.Sat >= 0 }
+
+// FeeQuoteIsWide reports whether a mining rate of the quote is written with a number above 10^6.
+func FeeQuoteIsWide(q FeeQuote) bool {
+	for _, u := range []FeeUnit{q.Std, q.Data} {
+		if u.Bytes > 1000000 || u.Sat > 1000000 {
+			return true
+		}
+	}
+	return false
+}
+
+// FeeFits reports whether the exact products bytes x satoshis of both fee types fit uint64 and
+// the two floored fees add up below 2^64. The fee is stated as floor(bytes x rate); the library
+// computes bytes*satoshis/bytes in uint64, so only such cases are judged (no claim is made
+// about products that do not fit).
+func FeeFits(sz FeeSizes, q FeeQuote) bool {
+	for _, p := range [][2]uint64{{sz.Std, uint64(q.Std.Sat)}, {sz.Data, uint64(q.Data.Sat)}} {
+		if !new(big.Int).Mul(new(big.Int).SetUint64(p[0]), new(big.Int).SetUint64(p[1])).IsUint64() {
+			return false
+		}
+	}
+	total, _, _ := FeeCalc(sz, q)
+	return total.IsUint64()
+}
+
+// FeeQuoteEditWideOK is FeeQuoteEditOK with the rates of the edit taken from the wide domain.
+func FeeQuoteEditWideOK(e FeeQuoteEdit) bool {
+	for _, u := range []*FeeUnit{&e.Unit, &e.Unit2} {
+		if FeeUnitWideOK(*u) {
+			*u = FeeUnit{Sat: 1, Bytes: 1}
+		}
+	}
+	return FeeQuoteEditOK(e)
+}
